@@ -30,6 +30,9 @@ def wellFormedB (v2 : Bool) (t : Tab) : Bool :=
     | .named und _ _ ou =>
       (isAliasUnder (t.facts.node und) || (shape v2 (t.facts.node und)).isSome) &&
       (isAliasUnder (t.facts.node und) || !(v2 && isStructOrIface (t.facts.node und)) || (shape v2 (t.facts.node ou)).isSome)
+    | .iface ms =>
+      -- method names are distinct and method signatures are unnamed type nodes
+      decide ((ms.map (·.name)).Nodup) && ms.all (fun m => (shape v2 (t.facts.node m.sig)).isSome)
     | _ => true
 
 /-- how a reference to node `c` is resolved: (is a type parameter, name); fuel bounds the length of a chain of type aliases -/
